@@ -53,13 +53,57 @@ def expected_for_port(run, port: int) -> List[Dict[str, Any]]:
 
 
 def match_callbacks(run, prop: str, c: Dict[str, int]) -> List[Viol]:
-    """Callbacks must be an interleaving of the per-port expected sequences.
-
-    Attribution is by content identity (every generated broadcast carries a unique device id); the
-    remaining fields are then compared, so a decoding error is reported as such and not as a lost or
-    reordered delivery."""
-    v: List[Viol] = []
+    """Callbacks must be an interleaving of the per-port expected sequences (exactly once, in arrival order per
+    port).  First an exact search for such an assignment (needed when the same broadcast is pending on several
+    ports); only if none exists is the greedy matcher used, to name what went wrong."""
     exp = {p: expected_for_port(run, p) for p in run.ports}
+    cbs = run.callbacks
+    valid_idx = {p: [j for j, e in enumerate(exp[p]) if e["class"] == "valid"] for p in run.ports}
+    n_grey = sum(1 for p in run.ports for e in exp[p] if e["class"] == "grey")
+    budget = [20000]
+
+    def ident(dev):
+        return (dev.get("cls"), dev.get("device_id"))
+
+    def solve(i, pos, greys_left):
+        """pos: per-port count of valid entries consumed so far (order forces a prefix)."""
+        budget[0] -= 1
+        if budget[0] < 0:
+            return None
+        if i == len(cbs):
+            return [] if all(pos[k] == len(valid_idx[p]) for k, p in enumerate(run.ports)) else None
+        got = cbs[i]["dev"]
+        tried = False
+        for k, p in enumerate(run.ports):
+            if pos[k] < len(valid_idx[p]):
+                e = exp[p][valid_idx[p][pos[k]]]
+                if ident(e["dev"]) == ident(got):
+                    tried = True
+                    rest = solve(i + 1, pos[:k] + (pos[k] + 1,) + pos[k + 1:], greys_left)
+                    if rest is not None:
+                        d = fields_diff(e["dev"], got)
+                        return ([(e, got, d)] if d else []) + rest
+        if not tried and greys_left:
+            known = any(ident(e["dev"]) == ident(got) for p in run.ports for e in exp[p] if e["class"] == "valid")
+            if not known:
+                return solve(i + 1, pos, greys_left - 1)
+        return None
+
+    sol = solve(0, tuple(0 for _ in run.ports), n_grey)
+    if sol is not None:
+        cnt(c, "judged-deliveries", len(cbs))
+        v = []
+        for e, got, d in sol:
+            v.append(("%s/field/%s/%s" % (prop, e["dev"]["cls"], "+".join(d[:3])),
+                      "broadcast %s decoded with wrong %s: expected %s, callback got %s" % (
+                          e["arrival"]["payload"].hex(), d, {k: e["dev"].get(k) for k in d}, {k: got.get(k) for k in d})))
+        return v
+    return _greedy_diagnosis(run, prop, c, exp)
+
+
+def _greedy_diagnosis(run, prop: str, c: Dict[str, int], exp) -> List[Viol]:
+    """No admissible interleaving exists: name the first thing that is wrong."""
+    v: List[Viol] = []
 
     def ident(dev):
         return (dev.get("cls"), dev.get("device_id"))
@@ -75,7 +119,12 @@ def match_callbacks(run, prop: str, c: Dict[str, int]) -> List[Viol]:
         if pending:
             # prefer an exact content match among the pending candidates (network duplicates share an id)
             exact = [x for x in pending if not fields_diff(x[2]["dev"], got)]
-            p, j, e = (exact or pending)[0]
+
+            def n_earlier(x):
+                return len([k for k in range(x[1]) if exp[x[0]][k]["class"] == "valid" and not exp[x[0]][k]["done"]])
+            # the same broadcast may be pending on several ports (mirrored): attribute the callback to the port
+            # on which it is next in line, if there is one
+            p, j, e = min(exact or pending, key=n_earlier)
             earlier = [k for k in range(j) if exp[p][k]["class"] == "valid" and not exp[p][k]["done"]]
             e["done"] = True
             cnt(c, "judged-deliveries")
@@ -141,6 +190,8 @@ def judge_c07(scn, run) -> Tuple[List[Viol], Dict[str, int]]:
         order_by_port.setdefault(a["port"], []).append(a["tag"])
     if any(n > 1 for n in seen_tags.values()):
         cnt(c, "probe:duplicate-arrival")
+    if any(isinstance(t, str) for t in seen_tags):
+        cnt(c, "probe:mirrored-to-second-port")
     for p, tags in order_by_port.items():
         if any(isinstance(a, int) and isinstance(b, int) and a > b for a, b in zip(tags, tags[1:])):
             cnt(c, "probe:reordered-pair")
